@@ -74,15 +74,15 @@ Proof. apply filter_app. Qed.
 Lemma Rel_new c : Rel c cw_new [].
 Proof. unfold Rel, cw_new; cbn. destruct (b_latest c); repeat split; auto; congruence. Qed.
 
-Lemma Rel_timer c w p t : Rel c w p -> Rel c (mkCw (cw_buf w) (cw_lat w) t (cw_latestOnly w)) p.
+Lemma Rel_timer c w p t cl : Rel c w p -> Rel c (mkCw (cw_buf w) (cw_lat w) t (cw_latestOnly w) cl) p.
 Proof. intros H. exact H. Qed.
 
-Lemma Rel_empty c t o : Rel c (mkCw [] [] t o) [].
+Lemma Rel_empty c t o cl : Rel c (mkCw [] [] t o cl) [].
 Proof. unfold Rel; cbn. destruct (b_latest c); repeat split; auto; congruence. Qed.
 
 Lemma flush_rel c w p : Rel c w p ->
   match cw_flush w with
-  | (w', Some batch) => batch = flush_spec (b_latest c) p /\ Rel c w' [] /\ cw_timer w' = cw_timer w
+  | (w', Some batch) => batch = flush_spec (b_latest c) p /\ Rel c w' [] /\ cw_timer w' = cw_timer w /\ cw_closed w' = cw_closed w
   | (w', None) => w' = w /\ flush_spec (b_latest c) p = []
   end.
 Proof.
@@ -91,25 +91,30 @@ Proof.
   - split; auto. destruct (b_latest c); [rewrite <- Hb, <- Hl|rewrite <- Hb]; reflexivity.
   - destruct (b_latest c) eqn:Ec; [|discriminate].
     assert (Hp : p <> []) by (intros ->; cbn in Hl; discriminate).
-    rewrite (Ho Hp). cbn. rewrite <- Hb, <- Hl. split; [reflexivity|]. split; [apply Rel_empty|reflexivity].
+    rewrite (Ho Hp). cbn. rewrite <- Hb, <- Hl. split; [reflexivity|]. split; [apply Rel_empty|split; reflexivity].
   - cbn. rewrite andb_false_r. destruct (b_latest c) eqn:Ec.
-    + rewrite <- Hb, <- Hl, app_nil_r. split; [reflexivity|]. split; [apply Rel_empty|reflexivity].
-    + rewrite <- Hb. split; [reflexivity|]. split; [apply Rel_empty|reflexivity].
+    + rewrite <- Hb, <- Hl, app_nil_r. split; [reflexivity|]. split; [apply Rel_empty|split; reflexivity].
+    + rewrite <- Hb. split; [reflexivity|]. split; [apply Rel_empty|split; reflexivity].
   - destruct (b_latest c) eqn:Ec; [|discriminate].
     assert (Hp : p <> []) by (intros ->; cbn in Hl; discriminate).
-    rewrite (Ho Hp). cbn. rewrite <- Hb, <- Hl. split; [reflexivity|]. split; [apply Rel_empty|reflexivity].
+    rewrite (Ho Hp). cbn. rewrite <- Hb, <- Hl. split; [reflexivity|]. split; [apply Rel_empty|split; reflexivity].
 Qed.
+
+Lemma add_closed c tm w x : cw_closed w = true -> cw_add c tm w x = (w, None, false).
+Proof. intros H. unfold cw_add, cw_add_gen. rewrite H. reflexivity. Qed.
 
 Lemma add_rel c tm w p x : Rel c w p ->
   match cw_add c tm w x with
-  | (w', Some batch, _) => batch = flush_spec (b_latest c) (p ++ [x]) /\ Rel c w' []
-  | (w', None, _) => Rel c w' (p ++ [x])
+  | (w', Some batch, _) => cw_closed w = false /\ batch = flush_spec (b_latest c) (p ++ [x]) /\ Rel c w' [] /\ cw_closed w' = false
+  | (w', None, _) => Rel c w' (if cw_closed w then p else p ++ [x]) /\ cw_closed w' = cw_closed w
   end.
 Proof.
-  intros (Hb & Hl & Ho). unfold cw_add.
+  intros R. destruct (cw_closed w) eqn:Ecl.
+  { rewrite add_closed by auto. rewrite Ecl. auto. }
+  destruct R as (Hb & Hl & Ho). unfold cw_add, cw_add_gen. rewrite Ecl. cbn [andb].
   set (bl := if b_latest c && ci_pub x then (cw_buf w, remove_key (ci_key x) (cw_lat w) ++ [x])
              else (cw_buf w ++ [x], cw_lat w)).
-  assert (R1 : forall t, Rel c (mkCw (fst bl) (snd bl) t (b_latest c)) (p ++ [x])).
+  assert (R1 : forall t, Rel c (mkCw (fst bl) (snd bl) t (b_latest c) false) (p ++ [x])).
   { intros t. unfold Rel; cbn [cw_buf cw_lat cw_latestOnly]. subst bl.
     rewrite pubs_app, nonpubs_app. unfold pubs at 2, nonpubs at 2. cbn [filter].
     destruct (b_latest c) eqn:Ec; destruct (ci_pub x) eqn:Ex; cbn [andb negb fst snd].
@@ -120,11 +125,11 @@ Proof.
   destruct bl as [buf lat] eqn:Ebl. cbn [fst snd] in R1.
   set (arm := b_delay c && (length buf + length lat =? 1) && match cw_timer w with None => true | Some _ => false end).
   destruct ((0 <? b_max c)%Z && (b_max c <=? Z.of_nat (length buf + length lat))%Z).
-  - pose proof (flush_rel c (cw_stop (mkCw buf lat (if arm then Some tm else cw_timer w) (b_latest c))) (p ++ [x]) (R1 None)) as F.
+  - pose proof (flush_rel c (cw_stop (mkCw buf lat (if arm then Some tm else cw_timer w) (b_latest c) false)) (p ++ [x]) (R1 None)) as F.
     destruct (cw_flush _) as [w2 [batch|]].
-    + destruct F as (F1 & F2 & _). auto.
-    + destruct F as (-> & _). apply (R1 None).
-  - apply R1.
+    + destruct F as (F1 & F2 & _ & F4). auto.
+    + destruct F as (-> & _). split; [apply (R1 None)|reflexivity].
+  - split; [apply R1|reflexivity].
 Qed.
 
 Lemma fire_rel c tm w p : Rel c w p ->
@@ -140,6 +145,12 @@ Proof.
   - destruct F as (-> & _). exact R.
 Qed.
 
+Lemma fire_closed tm w : cw_closed (fst (cw_fire tm w)) = cw_closed w.
+Proof.
+  unfold cw_fire. destruct (cw_timer w) as [t|]; auto. destruct (t =? tm); auto.
+  unfold cw_flush. destruct (cw_buf w), (cw_lat w); reflexivity.
+Qed.
+
 Lemma close_rel c f w p : Rel c w p ->
   match cw_close f w with
   | (w', Some batch) => f = true /\ batch = flush_spec (b_latest c) p /\ Rel c w' []
@@ -147,8 +158,7 @@ Lemma close_rel c f w p : Rel c w p ->
   end.
 Proof.
   intros R. unfold cw_close.
-  assert (RN : forall t o, Rel c (mkCw [] [] t o) []).
-  { intros t o. unfold Rel; cbn. destruct (b_latest c); repeat split; auto; congruence. }
+  assert (RN : forall t o cl, Rel c (mkCw [] [] t o cl) []) by (intros; apply Rel_empty).
   destruct f.
   - pose proof (flush_rel c (cw_stop w) p R) as F. destruct (cw_flush (cw_stop w)) as [w1 [batch|]].
     + destruct F as (F1 & _). split; [reflexivity|]. split; [exact F1|apply RN].
@@ -163,7 +173,9 @@ Fixpoint check_run (c : bcfg) (st : cw * nat) (pending : list citem) (ops : list
   | [] => True
   | o :: ops' =>
       let '(st', b) := cwop_step c st o in
-      let pending1 := match o with CAdd x => pending ++ [x] | _ => pending end in
+      let pending1 := match o with
+                      | CAdd x => if cw_closed (fst st) then pending else pending ++ [x]   (* a closed writer drops the item *)
+                      | _ => pending end in
       match b with
       | Some batch => batch = flush_spec (b_latest c) pending1 /\ check_run c st' [] ops'
       | None => check_run c st' (match o with CClose _ => [] | _ => pending1 end) ops'
@@ -175,7 +187,9 @@ Proof.
   induction ops as [|o ops IH]; intros [w n] p R; cbn [check_run]; auto. cbn [fst] in R.
   destruct o as [x|tm|f]; cbn [cwop_step].
   - pose proof (add_rel c n w p x R) as A. destruct (cw_add c n w x) as [[w1 b] armed].
-    destruct b as [batch|]; [destruct A as (A1 & A2); split; auto|]; apply IH; auto.
+    destruct b as [batch|].
+    + destruct A as (A0 & A1 & A2 & _). rewrite A0. split; auto. apply IH; auto.
+    + destruct A as (A1 & _). apply IH; auto.
   - pose proof (fire_rel c tm w p R) as A. destruct (cw_fire tm w) as [w1 b].
     destruct b as [batch|]; [destruct A as (A1 & A2); split; auto|]; apply IH; auto.
   - pose proof (close_rel c f w p R) as A. destruct (cw_close f w) as [w1 b].
